@@ -2,6 +2,7 @@
 use vstd::prelude::*;
 use std::collections::HashSet;
 verus! {
+//@include specs/std_extra.rs
 //@unit src/text.rs enum MatchOp
 #[derive(Copy, Clone, Debug)]
 enum MatchOp {
